@@ -87,6 +87,7 @@ func c03World(t *testing.T, r *simcore.Run) any {
 		}
 		if tp.Bool(1, 2, "k.dup") {
 			plan.Dup = uint64(tp.Range(10, 300, "dup"))
+			plan.DupSameInstant = uint64(tp.Intn(500, "dupsame"))
 		}
 		if tp.Bool(1, 2, "k.long") {
 			plan.LongDelay = uint64(tp.Range(10, 200, "long"))
